@@ -1127,6 +1127,9 @@ def run(ctx):
         sh.sync_from_impl()
         for _ in range(ln):
             r = rng.random()
+            if rng.random() < 0.02:
+                h.emit([49, rng.choice([0, 0, 2, 4, 5])])          # the history continues on a copy of the whole world
+                ctx.count("world_continued_on_a_copy")
             res = step_set(ctx, g, h, sh, rng) if r < 0.45 else step_list(ctx, g, h, sh, rng) if r < 0.75 else step_dict(ctx, g, h, sh, rng)
             if res is None:
                 continue
